@@ -481,7 +481,8 @@ pub fn run_c13(cfg: &Cfg) -> Report {
             4 => 65536,
             _ => 36 + r.below(if cx.idx % 40 == 0 { 65536 } else { 200 }) as u32,
         };
-        let n = 1 + r.usize_below(if cx.idx % 25 == 0 { 300 } else { 30 });
+        let init = if cx.cfg.mini { 36 + init % 200 } else { init };
+        let n = 1 + r.usize_below(if cx.cfg.mini { 12 } else if cx.idx % 25 == 0 { 300 } else { 30 });
         let mut cur = init as usize;
         let mut ops = Vec::new();
         for _ in 0..n {
